@@ -686,11 +686,17 @@ func (state *BuildState) forwardResults() {
 				delete(activeTargets, target)
 			}
 		}
-		state.progress.mutex.Lock()
-		if state.progress.results != nil {
-			state.progress.results <- result
-		}
-		state.progress.mutex.Unlock()
+		state.forwardResult(result)
+	}
+}
+
+// forwardResult passes one result on to the external channel. The send panics if that channel has
+// already been closed; the mutex must not stay locked when it does.
+func (state *BuildState) forwardResult(result *BuildResult) {
+	state.progress.mutex.Lock()
+	defer state.progress.mutex.Unlock()
+	if state.progress.results != nil {
+		state.progress.results <- result
 	}
 }
 
